@@ -190,8 +190,14 @@ Point = collections.namedtuple("Point", "x y")
 class MyStr(str): pass
 class Thing(object):
     def __init__(self): self.items = []
+class Falsy(object):
+    def __bool__(self): return False
+class Sized0(object):
+    def __len__(self): return 0
 def make_objects():
-    return [[1, 2], {"a": 1}, Thing(), Color.RED, Point(1, 2), MyStr("s"), (lambda: 5)]
+    # truthy and falsy targets alike: bool() of a proxy is the target's
+    return [[1, 2], {"a": 1}, Thing(), Color.RED, Point(1, 2), MyStr("s"), (lambda: 5), [], {}, Falsy(), Sized0(), bytearray()]
+NKINDS = 12
 class Holder(rpyc.Service):
     # side B: everything B does with the references happens inside requests served by B's own thread
     def __init__(self): self.held = []; self.remarks = []
@@ -245,7 +251,7 @@ def ob_identity(run, length):
         import json
         import os
         import tempfile
-        o.symbolic = ["history of %d events over {send, echo back, drop a proxy, mutate through the proxy} (exhaustive) for 7 object kinds" % length]
+        o.symbolic = ["history of %d events over {send, echo back, drop a proxy, mutate through the proxy} (exhaustive) for 12 object kinds (truthy and falsy targets)" % length]
         o.bounds = {"history_length": length, "decided_by": "exhaustive enumeration, native execution on two real connections"}
         hists = []
 
@@ -260,7 +266,7 @@ hists = %r
 bad = []
 n = 0
 for h in hists:
-    for which in range(7):
+    for which in range(NKINDS):
         n += 1
         b = run_history(h, which)
         if b: bad.append((h, which, b))
